@@ -989,8 +989,15 @@ pub async fn commit_compaction(
         return Ok(CompactionMetrics::default());
     }
 
+    // With stable row ids the indices hold row ids that do not change when rows move,
+    // so there is nothing to remap now or later: deferring does not apply. (A fragment
+    // reuse index would be built from still-unassigned fragment ids and would treat the
+    // stable row ids returned by indices as stale addresses.)
+    let defer_index_remap =
+        options.defer_index_remap && !dataset.manifest.uses_stable_row_ids();
+
     // If we aren't using stable row ids, then we need to remap indices.
-    let needs_remapping = !dataset.manifest.uses_stable_row_ids() && !options.defer_index_remap;
+    let needs_remapping = !dataset.manifest.uses_stable_row_ids() && !defer_index_remap;
 
     let mut rewrite_groups = Vec::with_capacity(completed_tasks.len());
     let mut metrics = CompactionMetrics::default();
@@ -1007,7 +1014,7 @@ pub async fn commit_compaction(
         };
         if needs_remapping {
             row_id_map.extend(task.row_id_map.unwrap());
-        } else if options.defer_index_remap {
+        } else if defer_index_remap {
             frag_reuse_groups.push(FragReuseGroup {
                 changed_row_addrs: task.changed_row_addrs.unwrap(),
                 old_frags: task.original_fragments.iter().map(|f| f.into()).collect(),
@@ -1040,7 +1047,7 @@ pub async fn commit_compaction(
                 new_index_version: rewritten.index_version,
             })
             .collect()
-    } else if !options.defer_index_remap {
+    } else if !defer_index_remap {
         // We need to reserve fragment ids here so that the fragment bitmap
         // can be updated for each index.
         let new_fragments = rewrite_groups
@@ -1053,7 +1060,7 @@ pub async fn commit_compaction(
         Vec::new()
     };
 
-    let frag_reuse_index = if options.defer_index_remap {
+    let frag_reuse_index = if defer_index_remap {
         Some(build_new_frag_reuse_index(dataset, frag_reuse_groups, new_fragment_bitmap).await?)
     } else {
         None
